@@ -297,7 +297,9 @@ def _write_xml_element_to_file(file, xml_element, indent: str):
 
 
 def _write_xml_string_to_file(file, xml_string: str, indent: str):
-    result = textwrap.indent(xml_string, indent)
+    # indent every non blank line; only "\n" ends a line here: textwrap.indent also breaks at the other unicode
+    # line boundaries (e.g. U+2028), which can be part of a path or a comment and must be written unchanged
+    result = "\n".join(indent + line if line.strip() else line for line in xml_string.split("\n"))
     file.write(result.encode("utf-8"))
 
 
